@@ -165,6 +165,17 @@ class SMI(Machine):
             sink.rope.append(text)
         return OK(())
 
+    def bufw_inner_write(self, bw, pieces):
+        if not pieces:
+            return OK(())
+        inner = deref(bw.inner)
+        if isinstance(inner, Sink):
+            return self.sink_write(inner, list(pieces))
+        if isinstance(inner, BufW):
+            inner.pending.extend(pieces)
+            return OK(())
+        raise Unsupported('BufWriter over %r' % (inner,))
+
     # ------------------------------------------------------------------ maps
     def map_find(self, m, key):
         """index of the entry whose key equals key (forks on symbolic comparisons), or None"""
@@ -262,6 +273,64 @@ class SMI(Machine):
             return RString(self.render(args[0]))
         if c == 'must_use':
             return args[0]
+        # --- std::io::BufWriter (see interp.BufW)
+        if re.match(r'(std::io::)?BufWriter(::<.*>)?::(new|with_capacity)$', c0) and args:
+            return BufW(args[-1])
+        if c == 'BufWriter::drop' and isinstance(d0, BufW):
+            pend, d0.pending = d0.pending, []
+            self.bufw_inner_write(d0, pend)         # the result is ignored: an error at this point is lost
+            return ()
+        if isinstance(d0, BufW):
+            if meth == 'write_fmt':
+                d0.pending.extend(self.render_pieces(args[1]))
+                return OK(())
+            if meth in ('write_all', 'write', 'write_str'):
+                buf = as_str(args[1])
+                if isinstance(buf, bytes):
+                    buf = buf.decode()
+                if isinstance(buf, list):
+                    buf = bytes(buf).decode()
+                d0.pending.append(buf)
+                return OK(()) if meth != 'write' else OK(self.smap(lambda t: len(t.encode()), buf))
+            if meth == 'flush':
+                pend, d0.pending = d0.pending, []
+                r = self.bufw_inner_write(d0, pend)
+                return r if r.variant == 1 else OK(())
+            if meth == 'into_inner':
+                pend, d0.pending = d0.pending, []
+                r = self.bufw_inner_write(d0, pend)
+                return OK(d0.inner) if r.variant == 0 else ERR(Opaque('IntoInnerError', r.fields[0]))
+            if meth in ('get_ref', 'get_mut'):
+                return d0.inner
+            if meth == 'buffer':
+                return ''
+        if meth in ('write_fmt', 'write_all') and isinstance(d0, Adt) and d0.name != 'Formatter' and self.find_impl(d0.name, 'write', 'Write') is not None \
+                and self.find_impl(d0.name, meth, 'Write') is None:
+            # a writer defined in the crate that only implements `write`: io::Write's provided write_fmt / write_all
+            # (write until everything is accepted; Ok(0) is WriteZero; Interrupted is retried)
+            wimpl = self.find_impl(d0.name, 'write', 'Write')
+            pieces = self.render_pieces(args[1]) if meth == 'write_fmt' else [as_str(args[1])]
+            for piece in pieces:
+                buf = piece
+                guard = 0
+                while True:
+                    r = self.run(wimpl, [a0, buf])
+                    if r.variant == 1:
+                        e = deref(r.fields[0])
+                        if isinstance(e, Opaque) and isinstance(e.data, dict) and e.data.get('kind') == 'Interrupted':
+                            continue
+                        return r
+                    n = self.concretize(r.fields[0]) if isinstance(r.fields[0], SymVal) else r.fields[0]
+                    total = self.concretize(self.smap(lambda t: len(t.encode()), buf)) if isinstance(buf, SymVal) else len(buf.encode())
+                    if total == 0 or n >= total:
+                        break
+                    if n == 0:
+                        return ERR(Opaque('io::Error', {'kind': 'WriteZero'}))
+                    buf = self.cstr(buf).encode()[n:].decode(errors='replace')
+                    guard += 1
+                    if guard > 200000:
+                        raise Divergence('write_all does not make progress')
+            return OK(())
         if meth == 'write_fmt':
             return self.sink_write(d0, self.render_pieces(args[1]))
         if meth == 'write_str' and isinstance(d0, Adt) and d0.name == 'Formatter':
